@@ -6,6 +6,13 @@ ROOT = os.path.dirname(os.path.dirname(os.path.abspath(__file__)))
 
 # id -> (category, technique, text, note, design_ref)
 CHECKS = {
+ "C11": ("fault_enumeration", "full enumeration of (call kind, step, cause) with a stalling scripted peer; return/ctx-error/Done/goroutine-dump oracle with certified-stuck certificate",
+         "Every blocking call kind at every step of its exchange (incl. both QoS 2 phases, the Retry handle of every interrupted request kind on a fresh client, and ReconnectClient.Connect while dialling / waiting CONNACK / backing off) crossed with every cause (pre-cancelled, cancel, deadline, local Close, peer close, malformed packet), alone and with three other calls blocked at once, and after a burst of unsolicited acknowledgements.",
+         "Trusted: goroutine dump filtered to library reader frames (baseline-subtracted); watchdog expiry becomes a verdict only with the quiescence certificate.", "5/C11"),
+ "C18": ("fault_enumeration", "dropped-acknowledgement sweep (single and on the retransmission path) with OnError/close/redial/retransmission monitor and certified-stuck certificate",
+         "The broker model silently drops the acknowledgement of every request packet (all ack kinds incl. PUBREC/PUBCOMP) on first transmissions and, in pairs, on the connection that retransmits; per fired drop: RequestTimeoutError through OnError, library Close, new connection, retransmission; ledger discharged; certified-stuck = waits forever.",
+         "Trusted: certified-stuck certificate; no bound on close time asserted.", "5/C18"),
+
  "C13": ("fault_enumeration", "scripted-Client classification table for KeepAlive; system monitor of PINGREQ times, dropped pings, library Close and redial on the real ReconnectClient",
          "Seeded scripts of ping outcomes (prompt, immediate failure, never answered, parent cancelled before/during a ping) against KeepAlive with logical classification (timeouts that cannot have expired), and system runs in which the broker model goes silent at a chosen point or never; only a silent peer may be declared dead, a silent peer must be detected with ErrPingTimeout and followed by a new connection.",
          "Trusted: scripted Ping honours its context like the real one; lower bounds on time only.", "5/C13"),
